@@ -280,6 +280,24 @@ def make_scenario(g, n, fam, kappa, dtype=F64, abatch=(), rbatch=None, cols=1, v
                 pre=pre, pre_form=pre_form if pre == "jacobi" else "dense", P=P, Minv=Minv, value=value, tol=tol, max_iter=max_iter, eps=eps)
 
 
+def f32_only_nonfinite(sc, **over):
+    """Defining condition of the float32 breakdown finding: the float32 run yields non-finite entries while the very same
+    inputs in float64 give a finite result (eps ** 2 = 1e-50 underflows only in float32)."""
+    if sc["rhs"].dtype != F32:
+        return False
+    sc64 = dict(sc)
+    sc64["rhs"] = sc["rhs"].double()
+    if "rhs" in over:
+        over = dict(over)
+        over["rhs"] = over["rhs"].double()
+    r = run_impl(sc64, **over)
+    return r.err is None and bool(torch.isfinite(r.result).all())
+
+
+def f32_cell(sc):
+    return f"C11/minres/f32-exact-breakdown/n={sc['n']}|kappa={sc['kappa']:g}|pre={sc.get('pre', 'none')}"
+
+
 def n_loop(sc, consts):
     mi = sc.get("max_iter") if sc.get("max_iter") is not None else int(consts["max_cg_iterations"])
     return min(mi, sc["n"] + int(consts["size_slack"])) + int(consts["extra_iters"])
@@ -326,8 +344,8 @@ def check_solve(chk, sc, consts):
             chk.violation(cell + "/zero", "a zero right-hand-side column has a non-zero (or NaN) solution", pl)
             return r
     if not torch.isfinite(got).all():
-        if dt == F32 and (n == 1 or sc["kappa"] <= 1):
-            chk.violation(f"C11/minres/f32-exact-breakdown/n={n}|kappa={sc['kappa']:g}", "float32, Krylov space exhausted (almost) exactly: non-finite solution", pl)
+        if f32_only_nonfinite(sc):
+            chk.violation(f32_cell(sc), "float32 only (the same inputs in float64 give a finite result): non-finite solution", pl)
         else:
             chk.violation(cell + "/nonfinite", "non-finite solution entries", pl)
         return r
@@ -335,6 +353,14 @@ def check_solve(chk, sc, consts):
     tol = sc.get("tol") if sc.get("tol") is not None else float(consts["minres_tolerance"])
     ev = torch.linalg.eigvalsh((M_I + M_I.mT) / 2)
     kap = float((ev.abs().amax(-1) / ev.abs().amin(-1)).max())
+    if sc.get("Minv") is not None:
+        # the iteration runs on the preconditioned pencil: spectrum of L^T (value K) L + s I with P^-1 = L L^T
+        Lc = torch.linalg.cholesky(sc["Minv"].double())
+        val = 1.0 if sc.get("value") is None else float(sc["value"])
+        shp = padded_shifts(sc.get("shifts"), M_I.dim() - 1)
+        Bp = val * (Lc.mT @ sc["A"].double() @ Lc) + shp * torch.eye(n, dtype=F64)
+        evp = torch.linalg.eigvalsh((Bp + Bp.mT) / 2)
+        kap = max(kap, float((evp.abs().amax(-1) / evp.abs().amin(-1)).max()))
     entries = got.numel() // n
     u = 1.1e-16 if dt == F64 else 6e-8
     stopped_early = r.iters < nl
@@ -352,7 +378,10 @@ def check_solve(chk, sc, consts):
         # the loop ended because of `min(max_iter, n + 1) + 2`, not because of the tolerance: in floating point the Krylov space
         # is not exhausted after n steps for ill-conditioned spectra (listed finding); coarse check only
         lim = 4 * max(tol, 1e-4) * entries * (math.sqrt(kap) + 1) + 200 * kap * u
-        cap_cell = f"C11/minres/iteration-cap/fam={sc['fam']}|kappa={sc['kappa']:g}|n={n}"
+        if n >= 8 and kap >= 100:
+            # defining condition of the finding: the loop ran into the size cap (the stopping test never passed), the system is
+            # large / ill-conditioned enough for floating-point Lanczos not to terminate after n steps
+            cap_cell = f"C11/minres/iteration-cap/n={n}|kappa_eff>=100|fam={sc['fam']}|pre={sc.get('pre', 'none')}"
     else:   # budget-limited by the caller: only the classical residual bound is available
         rho = (math.sqrt(kap) - 1) / (math.sqrt(kap) + 1)
         lim = max(4 * tol * entries * (math.sqrt(kap) + 1) + 200 * kap * u, min(1.5, 4 * kap * rho ** max(r.iters - int(consts["extra_iters"]), 0)))
@@ -403,8 +432,11 @@ def check_scaling(chk, sc, c, consts):
         chk.violation(cell + "/raises", f"minres raised: {r1.err} / {r2.err}", pl)
         return
     want, got = r1.result * c, r2.result
-    if sc["rhs"].dtype == F32 and (sc["n"] == 1 or sc["kappa"] <= 1) and not (torch.isfinite(want).all() and torch.isfinite(got).all()):
-        chk.violation(f"C11/minres/f32-exact-breakdown/n={sc['n']}|kappa={sc['kappa']:g}", "float32, Krylov space exhausted (almost) exactly: non-finite solution", pl)
+    if sc["rhs"].dtype == F32 and not (torch.isfinite(want).all() and torch.isfinite(got).all()):
+        if f32_only_nonfinite(sc) and f32_only_nonfinite(sc, rhs=sc["rhs"] * c):
+            chk.violation(f32_cell(sc), "float32 only (the same inputs in float64 give a finite result): non-finite solution", pl)
+        else:
+            chk.violation(cell + "/nonfinite", "non-finite solution entries", pl)
         return
     if not pow2_ok(c) and (sc["kappa"] > 1e3 or sc["n"] > 12 or sc["rhs"].dtype == F32 or (sc.get("pre", "none") != "none" and sc["n"] > 5)):
         c = 4.0 if c > 0 else -2.0
